@@ -169,6 +169,34 @@ def step (d : DSt) (w : List String) : DSt × String :=
           else { d with t := t' }
         (d', "ok " ++ triple t'.core)
     | _, _ => bad
+  -- crafted index lists (harness/c11/crafted.go): size and sibling hashes of the last proof, the given indexes
+  | ["vcraft", is, qs] =>
+    match d.lastP, parseNatList is, parseHexList qs with
+    | none, _, _ => (d, "noproof")
+    | some p, some idxs, some q =>
+      (d, if verifyProof hf q { p with idxs := idxs } d.t.core.root then "true" else "false")
+    | _, _, _ => bad
+  | ["ucraft", is, us] =>
+    match d.lastP, parseNatList is, parseHexList us with
+    | none, _, _ => (d, "noproof")
+    | some p, some idxs, some upd =>
+      match rootFromUpdateData hf upd { p with idxs := idxs } with
+      | none => (d, "err")
+      | some r => (d, Hex.encode r)
+    | _, _, _ => bad
+  | ["updidx", is, us] =>
+    match parseNatList is, parseHexList us with
+    | some idxs, some upd =>
+      match update hf d.t idxs upd with
+      | none => (d, "err")
+      | some t' =>
+        let base := 2 ^ getHeight d.t.core.size
+        let pairs := (idxs.zip upd).filter fun e => decide (base ≤ e.1) && decide (e.1 - base < d.data.length)
+        let ps := pairs.map fun e => e.1 - base
+        let vs := pairs.map (·.2)
+        ({ d with t := t', data := setAll d.data ps vs, hashes := setAll d.hashes ps (vs.map hf.leaf) },
+          "ok " ++ triple t'.core)
+    | _, _ => bad
   | ["witness", i] =>
     match i.toNat? with
     | none => bad
